@@ -41,6 +41,7 @@ type c12Scn struct {
 	Esc     string     `json:"esc"`
 	DelayUs int        `json:"delayus"`
 	Long    bool       `json:"long"`
+	Stale   bool       `json:"stale"`
 	Fault   string     `json:"fault,omitempty"` // C11: "" | "werr-on-secret" | "rerr-after-secret"
 }
 
@@ -190,6 +191,10 @@ func c12Run(s *c12Scn, pace *json.Encoder, logEnc *json.Encoder, mu *sync.Mutex)
 		}
 	}
 
+	if s.Stale && (s.Kind == "escalate" || s.Kind == "escalate-noauth") {
+		cli.AfterBare = "%SYS-5-CONFIG_I: Configured from console by vty0"
+	}
+
 	pipe := simdev.NewPipe(cli, int64(s.ID))
 	pipe.Seg = simdev.Seg{Mode: "rand", Max: 11}
 	pipe.RecordTrace = true
@@ -233,7 +238,11 @@ func c12Run(s *c12Scn, pace *json.Encoder, logEnc *json.Encoder, mu *sync.Mutex)
 		return v
 	}
 
-	if s.Kind == "escalate" || s.Kind == "interactive-network" {
+	if s.Kind == "escalate-noauth" {
+		cli.Mode = "privilege-exec"
+	}
+
+	if s.Kind == "escalate" || s.Kind == "interactive-network" || s.Kind == "escalate-noauth" {
 		nd, err = network.NewDriver("sim", append(opts, options.WithPrivilegeLevels(stdLevels()), options.WithDefaultDesiredPriv("privilege-exec"), options.WithAuthSecondary(secret))...)
 		if err == nil {
 			err = nd.Open()
@@ -293,6 +302,11 @@ func c12Run(s *c12Scn, pace *json.Encoder, logEnc *json.Encoder, mu *sync.Mutex)
 
 	var opOpts []util.Option
 	if s.Early {
+		if s.ID%2 == 0 {
+			// an option of another layer in front: it is ignored here and must not keep the next one from taking effect
+			opOpts = append(opOpts, opoptions.WithFailedWhenContains([]string{"no such text"}))
+		}
+
 		opOpts = append(opOpts, opoptions.WithCompletePatterns([]*regexp.Regexp{regexp.MustCompile(`(?im)^r1[>#]\s?$`)}))
 	}
 
@@ -328,6 +342,8 @@ func c12Run(s *c12Scn, pace *json.Encoder, logEnc *json.Encoder, mu *sync.Mutex)
 			}
 		case "command-eager":
 			_, oerr = gd.SendCommand("show v7", opoptions.WithEager())
+		case "escalate-noauth":
+			oerr = nd.AcquirePriv("configuration")
 		default:
 			oerr = nd.AcquirePriv("privilege-exec")
 		}
@@ -388,7 +404,7 @@ func c12Run(s *c12Scn, pace *json.Encoder, logEnc *json.Encoder, mu *sync.Mutex)
 
 		if !isRet {
 			e["echolen"] = e["echolen"].(int) + len(reacts[i])
-			if (s.Kind == "command" || s.Kind == "command-doubled") && len(reacts[i]) > 0 {
+			if (s.Kind == "command" || s.Kind == "command-doubled" || s.Kind == "escalate-noauth") && len(reacts[i]) > 0 {
 				e["mustecho"] = true
 			}
 
@@ -400,6 +416,12 @@ func c12Run(s *c12Scn, pace *json.Encoder, logEnc *json.Encoder, mu *sync.Mutex)
 
 		e["resplen"] = len(reacts[i])
 		e["need"] = len(reacts[i]) - trailingWS(reacts[i])
+
+		if k := bytes.Index(reacts[i], []byte(cli.AfterBare)); cli.AfterBare != "" && k >= 2 {
+			// the answer to the bare return is the first prompt; the log line and the redrawn prompt behind it need not be awaited
+			first := reacts[i][:k-2]
+			e["need"] = len(first) - trailingWS(first)
+		}
 		curHasResp = true
 
 		wrs = append(wrs, wr{cur + 1, "return", recvPos[i], false, strings.HasSuffix(states[i], "/ask")})
